@@ -23,6 +23,9 @@ import (
 type extServer struct {
 	cancel context.CancelFunc
 	stopFn func() error
+	// breakFn drops every connection of the server at once (and stops it listening): what a client sees
+	// when the connection to the server breaks. The database behind it stays open until stop.
+	breakFn func()
 	done   chan error
 	addr   string
 	conn   *grpc.ClientConn
@@ -46,7 +49,7 @@ func (w *World) openExternal() error {
 	srv := a.VerifServer()
 	done := make(chan error, 1)
 	go func() { done <- srv.Serve(lis) }()
-	w.ext = &extServer{cancel: cancel, done: done, addr: lis.Addr().String(), stopFn: func() error {
+	w.ext = &extServer{cancel: cancel, done: done, addr: lis.Addr().String(), breakFn: srv.Stop, stopFn: func() error {
 		srv.Stop()
 		<-done
 		return a.Stop()
